@@ -10,7 +10,7 @@ static int diag_seen;
 #include "parse.c"
 #include "penv.h"
 
-struct IN_t { unsigned char kl, kr, sub; } IN;
+struct IN_t { unsigned char kl, kr, sub, entry; int enumval; } IN;
 struct IN_t nondet_IN(void);
 
 static Type T_struct = {.kind = TY_STRUCT, .size = 8, .align = 4};
@@ -61,4 +61,32 @@ void h_additive(void) {
         VCOVER();
         return;
       }
+}
+
+
+// An identifier in an expression names whatever its innermost scope entry says: an object -> a variable node for
+// THAT object, an enumeration constant -> its value, a typedef name or nothing -> a located diagnostic. The REAL
+// primary() / find_var() / push_scope() run with a symbolic kind of scope entry; a node is never built around a
+// null object (which later crashes add_type).
+void h_primary_ident(void) {
+  HAVOC_IN();
+  __CPROVER_assume(IN.entry < 4);
+  static Scope sc0;
+  scope = &sc0;
+  static Obj the_var = {.name = "T", .is_local = true};
+  the_var.ty = ty_int;
+  static Token id = {.kind = TK_IDENT, .loc = "T", .len = 1}, end = {.kind = TK_EOF, .loc = "", .len = 0};
+  id.next = &end;
+  if (IN.entry == 1) push_scope("T")->var = &the_var;
+  else if (IN.entry == 2) push_scope("T")->type_def = ty_long;
+  else if (IN.entry == 3) { VarScope *v = push_scope("T"); v->enum_ty = ty_int; v->enum_val = IN.enumval; }
+  Token *rest = NULL;
+  Node *n = NULL;
+  TRY(n = primary(&rest, &id));
+  if (verif_diag) { VASSERT(IN.entry == 0 || IN.entry == 2, "only an undeclared name or a typedef name used as an operand is diagnosed"); return; }
+  VASSERT(n != NULL && rest == &end, "the identifier is consumed");
+  if (IN.entry == 1) VASSERT(n->kind == ND_VAR && n->var == &the_var, "an object name yields a variable node for that object");
+  else if (IN.entry == 3) VASSERT(n->kind == ND_NUM && n->val == IN.enumval, "an enumeration constant yields its value");
+  else VASSERT(0, "a typedef name / undeclared name as an operand must be diagnosed, not turned into a node");
+  VCOVER();
 }
